@@ -342,7 +342,7 @@ namespace detail {
             using locator_t = typename type::xy_locator;
             using x_iterator_t = typename type::x_iterator;
             using x_iterator_base_t = typename iterator_adaptor_get_base<x_iterator_t>::type;
-            x_iterator_t sit(x_iterator_base_t(&(src(0,0)[n])),src.pixels().pixel_size());
+            x_iterator_t sit(x_iterator_base_t(&(src.pixels()(0,0)[n])),src.pixels().pixel_size());
             return type(src.dimensions(),locator_t(sit, src.pixels().row_size()));
         }
     };
@@ -353,7 +353,7 @@ namespace detail {
         using type = typename view_type<typename channel_type<View>::type, gray_layout_t, false, false, view_is_mutable<View>::value>::type;
         static type make(View const& src, int n) {
             using x_iterator_t = typename type::x_iterator;
-            return interleaved_view(src.width(),src.height(),(x_iterator_t)&(src(0,0)[n]), src.pixels().row_size());
+            return interleaved_view(src.width(),src.height(),(x_iterator_t)&(src.pixels()(0,0)[n]), src.pixels().row_size());
         }
     };
 
@@ -469,7 +469,7 @@ namespace detail {
             using locator_t = typename type::xy_locator;
             using x_iterator_t = typename type::x_iterator;
             using x_iterator_base_t = typename iterator_adaptor_get_base<x_iterator_t>::type;
-            x_iterator_t sit(x_iterator_base_t(&gil::at_c<K>(src(0,0))),src.pixels().pixel_size());
+            x_iterator_t sit(x_iterator_base_t(&gil::at_c<K>(src.pixels()(0,0))),src.pixels().pixel_size());
             return type(src.dimensions(),locator_t(sit, src.pixels().row_size()));
         }
     };
@@ -483,7 +483,7 @@ namespace detail {
         using type = typename view_type<channel_t, gray_layout_t, false, false, view_is_mutable<View>::value>::type;
         static type make(View const& src) {
             using x_iterator_t = typename type::x_iterator;
-            return interleaved_view(src.width(),src.height(),(x_iterator_t)&gil::at_c<K>(src(0,0)), src.pixels().row_size());
+            return interleaved_view(src.width(),src.height(),(x_iterator_t)&gil::at_c<K>(src.pixels()(0,0)), src.pixels().row_size());
         }
     };
 
